@@ -7,17 +7,17 @@ From Adeu Require Import Str Doc Project DocOps Inst Engine EngineProofs.
    order, duplicates, overlaps, empty targets, unlocatable targets) and every matcher answer - as long as the model does not
    stop at an out-of-scope case (out = false) *)
 Theorem C08_counts : forall d author ts edits orc,
-  let '(_, ap, sk, out) := apply_edits d author ts edits orc in out = 0 -> ap + sk = length edits.
+  let '(_, ap, sk, out, _) := apply_edits d author ts edits orc in out = 0 -> ap + sk = length edits.
 Proof. intros d author ts edits orc. pose proof (engine_contract d author ts edits orc) as H. cbn zeta in H.
-  destruct (apply_edits d author ts edits orc) as [[[d' ap] sk] out]. exact (proj2 H). Qed.
+  destruct (apply_edits d author ts edits orc) as [[[[d' ap] sk] out] nn]. exact (proj2 H). Qed.
 Print Assumptions C08_counts.
 
 (* whatever is applied or skipped, nothing but session marks and session comments is added (see C01) *)
 Theorem C08_only_session_traces : forall d author ts edits orc,
   let nd := normalize_doc d in
-  let '(d', _, _, _) := apply_edits d author ts edits orc in (wf_ids nd -> RelG (scan_ids nd) (next_comment_id nd) (d_next_uid nd) nd d').
+  let '(d', _, _, _, nn) := apply_edits d author ts edits orc in (wf_ids nd -> nn = 0 -> RelG (scan_ids nd) (next_comment_id nd) (d_next_uid nd) nd d').
 Proof. intros d author ts edits orc. pose proof (engine_contract d author ts edits orc) as H. cbn zeta in *.
-  destruct (apply_edits d author ts edits orc) as [[[d' ap] sk] out]. exact (proj1 H). Qed.
+  destruct (apply_edits d author ts edits orc) as [[[[d' ap] sk] out] nn]. exact (proj1 H). Qed.
 Print Assumptions C08_only_session_traces.
 
 (* skipped edits leave no trace: a batch in which nothing was applied (every edit skipped - not found, empty target, target in
@@ -25,6 +25,6 @@ Print Assumptions C08_only_session_traces.
    (characters, formatting, tracked changes, comment anchors, other content) in every paragraph, the same stories / tables /
    cells, the same comment records. Only run boundaries may have moved (the mapper splits runs while it resolves a range) *)
 Theorem C08_nothing_applied_no_trace : forall d author ts edits orc,
-  let '(d', ap, _, _) := apply_edits d author ts edits orc in ap = 0 -> ARel (normalize_doc d) d'.
+  let '(d', ap, _, _, _) := apply_edits d author ts edits orc in ap = 0 -> ARel (normalize_doc d) d'.
 Proof. exact engine_no_trace. Qed.
 Print Assumptions C08_nothing_applied_no_trace.
